@@ -89,7 +89,12 @@ let check_frag_op (op : string) (f : int -> string) (impl : string) =
           let ffg = first_fit numQ (fun x -> x) fs lws in
           let ffr = (let off = ref 0 in List.map (fun g -> let l = List.length g in let r = (nat_of_int !off, nat_of_int (!off + l)) in off := !off + l; r) ffg) in
           let cf = if n = 0 then ci else fq (arrangement_cost numQ p fs lws ffr) in
-          if not (qeq_bool ci co) then say "C03" "FAIL" "cost of the returned arrangement exceeds the minimum over all arrangements"
+          (* the Coq-proved checker (Checkers/OptB.v), exact integers *)
+          let proved = if all_int [f 1; f 2] then
+              Some (optimal_b p (List.map (dfrag_with zconv) (dlist (f 1))) (List.map (fun x -> Obj.obj (zconv x)) (dlist (f 2))) ranges)
+            else None in
+          if proved = Some false then say "C03" "FAIL" "the returned arrangement fails the proved optimality checker optimal_b (its cost is not the minimum over all arrangements)"
+          else if not (qeq_bool ci co) then say "C03" "FAIL" "cost of the returned arrangement exceeds the minimum over all arrangements"
           else if qltb cf ci then say "C03" "FAIL" "first-fit arrangement is cheaper"
           else say "C03" "ok" ""
         end else say "C03" "skip" "outside the precondition"
